@@ -407,12 +407,7 @@ func c12(w *core.World, r *core.Report) {
 		if f == nil {
 			continue
 		}
-		rec := false
-		for _, c := range core.Calls(f) {
-			if c.Common().StaticCallee() == f && core.OnCycle(c) {
-				rec = true
-			}
-		}
+		rec := core.RecursesInLoop(f)
 		r.Check(rec, "LEAFLIST-RECURSE", core.Site(f, "recurses for elements"), w.Pos(f.Pos()), "leaf-list elements are not converted by the converter itself")
 	}
 
@@ -656,11 +651,6 @@ func ruleEqualLeaflist(w *core.World, r *core.Report) {
 		}
 	}
 	r.Check(nLen >= 2 && cmp, "EQUAL-LEAFLIST", core.Site(f, "lengths compared"), w.Pos(f.Pos()), "leaf-lists of different length must be unequal")
-	rec := false
-	for _, c := range core.Calls(f) {
-		if c.Common().StaticCallee() == f && core.OnCycle(c) {
-			rec = true
-		}
-	}
+	rec := core.RecursesInLoop(f)
 	r.Check(rec, "EQUAL-LEAFLIST", core.Site(f, "elements compared pairwise"), w.Pos(f.Pos()), "element-wise comparison by recursion")
 }
